@@ -68,7 +68,7 @@ type Case struct {
 	Old     string `json:"old"`    // size class of the old content: empty | small | big
 	New     string `json:"new"`    // size class of the new content
 	Layout  string `json:"layout"` // tmpdir (TMPDIR on the same file system) | xdev (TMPDIR elsewhere) | explicit (opts.TempDir) | explicitx
-	Fault   string `json:"fault"`  // none | srcerr (source reader fails half way) | short (first download is cut short) | shortstream (every download is a close-delimited body cut short)
+	Fault   string `json:"fault"`  // none | srcerr (source reader fails half way) | srceof (... with io.ErrUnexpectedEOF) | short (first download is cut short) | shortstream (every download is a close-delimited body cut short)
 	Seed    int    `json:"seed"`
 	Root    string `json:"root"`   // sandbox (filled in by the batch runner)
 	Tmpdir  string `json:"tmpdir"` // TMPDIR of the writer (filled in by the batch runner)
@@ -507,10 +507,14 @@ func (l *layout) observe(before map[string]bool, why, errText string) map[string
 type failingReader struct {
 	r    io.Reader
 	left int
+	err  error // nil: a generic error
 }
 
 func (f *failingReader) Read(p []byte) (int, error) {
 	if f.left <= 0 {
+		if f.err != nil {
+			return 0, f.err
+		}
 		return 0, errors.New("source failed")
 	}
 	if len(p) > f.left {
@@ -549,6 +553,10 @@ func (l *layout) prepared(gen int) (func() error, func(), error) {
 		var rd io.Reader = bytes.NewReader(data)
 		if c.Fault == "srcerr" {
 			rd = &failingReader{r: bytes.NewReader(data), left: len(data) / 2}
+		}
+		if c.Fault == "srceof" {
+			// a source that ends before its announced length (a truncated compressed stream, a short section reader)
+			rd = &failingReader{r: bytes.NewReader(data), left: len(data) / 2, err: fmt.Errorf("source: %w", io.ErrUnexpectedEOF)}
 		}
 		return func() error { return utils.CreateAtomic(l.dest, rd, opts) }, nop, nil
 	case "copyatomic":
@@ -1161,8 +1169,36 @@ func runOne(h int, s script, work string, tr *vio.Trace) {
 		runReaders(h, l, tr)
 		return
 	}
-	cb, _ := json.Marshal(c)
 	casePath := filepath.Join(dir, "case.json")
+	self, _ := filepath.Abs(os.Args[0])
+	after := ""
+	if s.Mode == "killthen" {
+		// an earlier writer of the same destination was killed right before it published (its temporary file is
+		// left behind); the operation judged is the next, undisturbed write of a shorter content into the same place
+		cb, _ := json.Marshal(c)
+		if err := os.WriteFile(casePath, cb, 0o644); err != nil {
+			fail("case", err)
+			return
+		}
+		pre := exec.Command("strace", "-o", "/dev/null", "-e", "trace="+traceSet, "-e",
+			fmt.Sprintf("inject=%s:signal=KILL:when=%d", s.Sys, s.K), self, "write", casePath)
+		pre.Env = append(os.Environ(), "TMPDIR="+c.Tmpdir)
+		pre.Dir = c.Root
+		_ = pre.Run()
+		if st, _ := l.destState(); st != "old" {
+			tr.Emit(map[string]any{"e": "infra", "h": h, "what": "killthen", "err": "the first writer was not killed before it published: " + st})
+			return
+		}
+		if c.New == "big" {
+			c.New = "small"
+		} else {
+			c.New = "empty"
+		}
+		l = newLayout(c)
+		before = l.tree()
+		s.Mode, after = "full", "crash"
+	}
+	cb, _ := json.Marshal(c)
 	if err := os.WriteFile(casePath, cb, 0o644); err != nil {
 		fail("case", err)
 		return
@@ -1177,7 +1213,6 @@ func runOne(h int, s script, work string, tr *vio.Trace) {
 	case "error":
 		args = append(args, "-e", fmt.Sprintf("inject=%s:error=%s:when=%d", s.Sys, s.Errno, s.K))
 	}
-	self, _ := filepath.Abs(os.Args[0])
 	args = append(args, self, "write", casePath)
 	cmd := exec.Command("strace", args...)
 	cmd.Env = append(os.Environ(), "TMPDIR="+c.Tmpdir)
@@ -1211,6 +1246,9 @@ func runOne(h int, s script, work string, tr *vio.Trace) {
 	hd := l.header(h, s.Mode)
 	hd["sys"], hd["k"], hd["wall_ms"] = s.Sys, s.K, time.Since(t0).Milliseconds()
 	hd["killed"], hd["injected"], hd["ended"], hd["foreign"] = res.killed, res.injected, res.ended, res.foreign
+	if after != "" {
+		hd["after"] = after
+	}
 	tr.Emit(hd)
 	for _, ev := range res.events {
 		ev["h"] = h
